@@ -114,3 +114,48 @@ def check_invariance(pi, K, keys, mts, component, tags, tol=1e-9):
             dict(worst_tree=mts[j].to_json(), residual=float(err[j])),
         )
     return float(err.max())
+
+
+class ResampleMonitor:
+    """Harness-side wrapper around ConditionalSMCSampler._resample_swarm: counts resampling steps and detects
+    floating-point ties of the relative ESS with the threshold.  `relative_ess <= threshold` is a discontinuity: when a
+    swarm's relative ESS equals the threshold in exact arithmetic (e.g. weights (2/3, 1/3), N=2, threshold 0.9) rounding
+    decides, and mathematically identical swarms reached along different paths can get different decisions.  That is a
+    finite-precision artefact at a measure-zero boundary, not a defect of the sampler, so a case in which near-tie swarms
+    (|rel. ESS - threshold| < 1e-9) received BOTH decisions is inconclusive (counted), never a violation."""
+
+    def __init__(self):
+        from phyclone.smc.samplers.conditional import ConditionalSMCSampler
+
+        self.cls = ConditionalSMCSampler
+        self.count = 0
+        self.tie_decisions = set()
+
+    def __enter__(self):
+        orig = self.cls._resample_swarm
+        me = self
+
+        def wrapped(s):
+            before = s.swarm
+            try:
+                ress = float(before.relative_ess)
+            except Exception:
+                ress = None
+            r = orig(s)
+            did = s.swarm is not before
+            if did:
+                me.count += 1
+            if ress is not None and abs(ress - s.resample_threshold) < 1e-9 and s.iteration < s.num_iterations:
+                me.tie_decisions.add(did)
+            return r
+
+        self.orig = orig
+        self.cls._resample_swarm = wrapped
+        return self
+
+    def __exit__(self, *a):
+        self.cls._resample_swarm = self.orig
+
+    def check(self):
+        if len(self.tie_decisions) > 1:
+            raise Inconclusive("ess-threshold-tie")
